@@ -95,7 +95,7 @@ def trajectory(env, desc, ops, seed, debug=True):
     return outs, log, tape
 
 
-def shipped(ctx):
+def _shipped_body(ctx):
     r = ctx.rng
     from gym_gridverse import gym as gvgym
     files = {os.path.basename(f): f for f in envs.shipped_files()}
@@ -297,6 +297,20 @@ def corrupted(ctx):
                 seed = r.randrange(1 << 30)
                 if envs.run_ops(env, desc, ops, True, seed)[0] != envs.run_ops(base, desc, ops, True, seed)[0]:
                     ctx.violation(f'{name} [{what}]: an ignored parameter changed the behaviour', case)
+
+
+def shipped(ctx):
+    """the names in a configuration mean the LIBRARY's components: while user classes that happen to be called `Key` and `Wall` exist in the
+    process (defining a GridObject subclass registers it), every shipped file still builds the environment assembled by hand from the
+    library classes"""
+    from gym_gridverse.grid_object import Key as LibKey, Wall as LibWall, grid_object_registry as reg
+    user = [type('Key', (LibKey,), {}), type('Wall', (LibWall,), {})]
+    try:
+        _shipped_body(ctx)
+    finally:
+        for cls in user:
+            while cls in reg.data:
+                reg.data.remove(cls)
 
 
 def run(ctx):
